@@ -1260,28 +1260,26 @@ func (t *ZeroAllocTokenizer) TokenizeOptimized() ([]Token, error) {
 		var endLength int
 
 		switch tagLoc.Type {
-		case TAG_VAR:
-			endTokenType = TOKEN_VAR_END
-			endLength = 2 // }}
-		case TAG_VAR_TRIM:
-			// Check if it ends with -}}
-			if tagEndPos > 0 && t.source[tagEndPos-1] == '-' {
+		case TAG_VAR, TAG_VAR_TRIM:
+			// Check if it ends with -}} (whatever the opening delimiter looks like)
+			if tagEndPos > tagContentStart && t.source[tagEndPos-1] == '-' {
 				endTokenType = TOKEN_VAR_END_TRIM
-				endLength = 3 // -}}
+				// The dash is part of tagContent (which ends right before "}}"),
+				// so only the two closing characters remain to be skipped
+				endLength = 2
 				// Adjust tag content to remove the trailing dash
 				tagContent = tagContent[:len(tagContent)-1]
 			} else {
 				endTokenType = TOKEN_VAR_END
 				endLength = 2 // }}
 			}
-		case TAG_BLOCK:
-			endTokenType = TOKEN_BLOCK_END
-			endLength = 2 // %}
-		case TAG_BLOCK_TRIM:
-			// Check if it ends with -%}
-			if tagEndPos > 0 && t.source[tagEndPos-1] == '-' {
+		case TAG_BLOCK, TAG_BLOCK_TRIM:
+			// Check if it ends with -%} (whatever the opening delimiter looks like)
+			if tagEndPos > tagContentStart && t.source[tagEndPos-1] == '-' {
 				endTokenType = TOKEN_BLOCK_END_TRIM
-				endLength = 3 // -%}
+				// The dash is part of tagContent (which ends right before "%}"),
+				// so only the two closing characters remain to be skipped
+				endLength = 2
 				// Adjust tag content to remove the trailing dash
 				tagContent = tagContent[:len(tagContent)-1]
 			} else {
